@@ -15,7 +15,7 @@
 (* actual state.  A trace is a behaviour of the specification iff no       *)
 (* clause fails.                                                           *)
 (***************************************************************************)
-EXTENDS HgSem, HgParse, HgViews, Json, IOUtils, TLCExt
+EXTENDS HgSem, HgParse, HgViews, HgFrame, Json, IOUtils, TLCExt
 
 Input == JsonDeserialize(IOEnv.TRACE_FILE)
 Traces == Input.traces
@@ -123,6 +123,11 @@ NumpyWs == IF Ev.wf = "one" THEN Ones(Len(Ev.rows))
 Expect ==
   LET op == Ev.op IN
   CASE op \in {"New", "NewDefault", "NewShared"} -> X(Ev.s, FALSE, Zero(Ev.d), Ev.d, TRUE, TRUE, "det")
+    [] op = "MH" ->
+         (* make_histograms: the histogram of feature Ev.cols is the fold of Fill over the rows, for the tree that
+            the RETURNED bin specifications describe *)
+         LET tree == TreeOf(Ev.cols, Ev.specs, Ev.dts) IN
+         X(Ev.t, FALSE, MakeHist(Ev.rows, Ev.cols, Ev.specs, Ev.dts), tree, TRUE, TRUE, "strip")
     [] op = "Fill" ->
          LET p == pool[Ev.s] IN
          X(Ev.s, SharedFillable(p.d) \/ Raises(p.c, p.d, Ev.x, Ev.w), Fill(p.c, p.d, Ev.x, Ev.w), p.d, p.mut, FALSE, "det")
@@ -164,6 +169,10 @@ BagAfter(E) ==
   LET op == Ev.op IN
   IF ~WantSem \/ ~Ok \/ E.exc THEN bag ELSE
   CASE op \in {"New", "NewDefault", "Zero"} -> [bag EXCEPT ![E.tgt] = EmptyBag]
+    [] op = "MH" ->
+         LET RECURSIVE GoR(_, _)
+             GoR(B, i) == IF i > Len(Ev.rows) THEN B ELSE GoR(B (+) SetToBag({<<Ev.rows[i], Q(1)>>}), i + 1)
+         IN [bag EXCEPT ![Ev.t] = GoR(EmptyBag, 1)]
     [] op = "Fill" -> [bag EXCEPT ![Ev.s] = IF Gt(Ev.w, Q(0)) THEN @ (+) SetToBag({<<Ev.x, Ev.w>>}) ELSE @]
     [] op \in {"FillNoW", "Increment"} -> [bag EXCEPT ![Ev.s] = @ (+) SetToBag({<<Ev.x, Q(1)>>})]
     [] op = "FillNumpy" ->
@@ -219,6 +228,7 @@ Clauses(E) ==
                  \/ CASE Ev.op = "FillNumpy" -> Ev.inputs_unchanged
                       [] Ev.op = "Reload" -> Ev.strict /\ Ev.fixpoint
                       [] Ev.op = "Increment" -> Ev.same
+                      [] Ev.op = "MH" -> Ev.df_unchanged /\ Ev.nfeat
                       [] Ev.op = "Eq" -> EqFlags(E)
                       [] Ev.op = "View" -> ViewOK(pool[Ev.a].c, Ev.hasLo, Ev.qlo, Ev.hasHi, Ev.qhi, Ev.xs, Ev.res)
                       [] Ev.op = "CatView" -> CatViewOK(pool[Ev.a].c, Ev.res)
@@ -230,7 +240,7 @@ Clauses(E) ==
                            r.st = "valid" => DocEq(Ev.redoc, ToDoc(r.c, r.d))
                       [] OTHER -> TRUE,
     sem      |-> \/ ~WantSem \/ ~Ok \/ E.exc \/ ~shapeOK \/ overBudget \/ E.how \in {"pure", "drop"}
-                 \/ IF E.how = "strip" THEN Strip(ObsC(tgt)) = Strip(Sem(E.d, BagAfter(E)[tgt]))
+                 \/ IF E.how = "strip" \/ T.strip THEN Strip(ObsC(tgt)) = Strip(Sem(E.d, BagAfter(E)[tgt]))
                     ELSE ObsC(tgt) = Sem(E.d, BagAfter(E)[tgt]) ]
 
 (* Named deviations (known findings, DESIGN 9): the specification says which documented deviation of
